@@ -65,7 +65,11 @@ def initial_text(case, kind):
     if kind == 'synth':
         return gen.file_text(case)
     per = shipped.Persona(case['persona'])
-    return gen.file_text([(n, per.text(n).replace('%', '%%')) for n in case['file']], layout=case.get('layout'))
+    items = [(n, per.text(n).replace('%', '%%')) for n in case['file']]
+    if case.get('stray_year') is not None:
+        # the header of a solution file of another year, pasted into the input file (not an input of any form)
+        items.append(('habutax.tax_year', str(case['stray_year'])))
+    return gen.file_text(items, layout=case.get('layout'))
 
 
 def evaluate(case, engine, acc=None):
@@ -161,12 +165,13 @@ def make_case(engine, seed):
     if engine.startswith('synth'):
         faults = rng.pick([[], [], ['raise'], ['unsup_ln'], ['unsup_in'], ['notimpl'], ['cycle'], ['raise', 'unsup_ln'],
                            ['wrong'], ['unk_ln'], ['corrupt'], ['corrupt', 'notimpl']])
-        case = gen.gen_case(seed, force_faults=faults)
+        case = gen.gen_case(seed, force_faults=faults, percent=rng.chance(0.15))
         case['prompt'] = True
         case['refuse_at'] = None
         keep = rng.pick([0.0, 0.3, 0.7])
-        case['file'] = [n for n in case['file'] if rng.chance(keep) or case['persona'][n]['invalid'] or '\n' in case['persona'][n]['text']]
-        if rng.chance(0.1) and not any(p_['invalid'] or '\n' in p_['text'] for p_ in case['persona'].values()):
+        case['file'] = [n for n in case['file'] if rng.chance(keep) or case['persona'][n]['invalid'] or '\n' in case['persona'][n]['text']
+                        or '%' in case['persona'][n]['text']]
+        if rng.chance(0.1) and not any(p_['invalid'] or '\n' in p_['text'] or '%' in p_['text'] for p_ in case['persona'].values()):
             case['file'] = []
             case['no_file'] = True
         return case
@@ -174,7 +179,16 @@ def make_case(engine, seed):
     case = shipped_props.make_case(seed, 'C20', flip_p=rng.pick([0.0, 0.0, 0.02]))
     case['prompt'] = True
     case['refuse_at'] = None
-    if rng.chance(0.1):
+    if rng.chance(0.15):
+        # a text value with a per-cent sign, given in the file (written %% there)
+        per = shipped.Persona(case['persona'])
+        strs = [q for q in shipped_props.discover(case['persona']).monitor.prompted if (per.spec(q) or {}).get('type') == 'str']
+        if strs:
+            q = rng.pick(strs)
+            case['persona']['over'][q] = rng.pick(['Fifty% Off Outlet', '100%% sure', '1% Club'])
+            if q not in case['file']:
+                case['file'].append(q)
+    elif rng.chance(0.1):
         case['file'] = []
         case['no_file'] = True
     return case
